@@ -1,6 +1,6 @@
 /-
 `#audit_ns Foo.Bar` prints, for every theorem whose name starts with `Foo.Bar.`, one line
-`AUDIT <name> [<axioms it depends on>]`.  The check script counts obligations from these lines and
+`AUDIT <name> [<axioms it depends on>] #<hash of the statement>`.  The check script counts obligations from these lines and
 requires every axiom set to be within {propext, Classical.choice, Quot.sound}.
 -/
 import Lean
@@ -20,4 +20,7 @@ elab "#audit_ns " ns:ident : command => do
   for name in sorted do
     let axs ← collectAxioms name
     let axs := axs.qsort (fun a b => a.toString < b.toString)
-    logInfo m!"AUDIT {name} {axs.toList}"
+    -- `#<hash>`: structural hash of the theorem's STATEMENT (its type), so that a statement changed under an unchanged
+    -- name is noticed by the check script (it compares with the recorded statements in checklib/statements.json)
+    let ty := (← getConstInfo name).type
+    logInfo m!"AUDIT {name} {axs.toList} #{ty.hash}"
